@@ -464,6 +464,25 @@ def toggle_sub(rng, model):
     return new, "readd_sub"
 
 
+def revert_env(rng, model, earlier_envs):
+    """Set a tracked environment variable back to a value it had in an earlier phase (the shape
+    1 -> 2 -> 1: a rescan that compares with a value recorded too early misses it)."""
+    new = copy.deepcopy(model)
+    candidates = []
+    for name, value in sorted(new.env.items()):
+        past = sorted({env.get(name) for env in earlier_envs if env.get(name) not in (None, value)})
+        if past:
+            candidates.append((name, past))
+    if not candidates:
+        # nothing to go back to yet: make a first change, so that a later phase can revert it
+        import projgen
+
+        return projgen.mutate(rng, model, "change_env")
+    name, past = rng.choice(candidates)
+    new.env[name] = rng.choice(past)
+    return new, "revert_env"
+
+
 def final_render(model):
     import projgen
 
@@ -521,6 +540,8 @@ def gen_hist(rng, model, *, nphase=None, watch_prob=0.3, break_prob=0.12, sub_pr
             if only_sources:
                 kind = rng.choice(SOURCE_KINDS[:2] if rng.random() < 0.7 else SOURCE_KINDS)
                 current, kind = projgen.mutate(rng, current, kind)
+            elif not watching and rng.random() < 0.1:
+                current, kind = revert_env(rng, current, [m.env for m in models])
             elif rng.random() < (0.5 if getattr(current, "parked_sub", None) else sub_prob):
                 current, kind = toggle_sub(rng, current)
             elif current.dropped and rng.random() < 0.3:
